@@ -45,13 +45,13 @@ Shares(a, b) == Cells(a) \cap Cells(b) # {}
 \* pool of pre-existing objects (tokens distinct inside every component, unsorted, no ties)
 Init ==
   /\ bufs = << Ints(<<3, 1, 2>>), Ints(<<20, 30, 10>>), Ints(<<7, 5>>), Ints(<<9>>),
-               Ints(<<100, 300, 200>>), Ints(<<4, 6, 5>>), Ints(<<2, 0, 1>>), Ints(<<300, 100, 200>>) >>
+               Ints(<<100, 300, 200>>), Ints(<<4, 6, 5>>), Ints(<<2, 0, 1>>), Ints(<<300, 100, 200>>), Ints(<<6, 2, 4>>) >>
   /\ heap = << mkArr(1, 3, U1("m"), "f8"), mkArr(2, 3, U1("s"), "f8"), mkArr(3, 2, U1("m"), "f8"), mkScal(4, U1("m"), "f8"),
-               mkVec(<<5, 6>>, 3, U1("cm"), "f8"), mkArr(7, 3, Unit0, "i8"), mkArr(8, 3, U1("cm"), "f8") >>
+               mkVec(<<5, 6>>, 3, U1("cm"), "f8"), mkArr(7, 3, Unit0, "i8"), mkArr(8, 3, U1("cm"), "f8"), mkArr(9, 3, U1("m"), "f4") >>
   /\ dgs = << [keys |-> <<>>, val |-> <<>>, name |-> "", parent |-> 0], [keys |-> <<>>, val |-> <<>>, name |-> "", parent |-> 0] >>
   /\ dss = << [keys |-> <<>>, val |-> <<>>, meta |-> <<>>] >>
   /\ res = NoRes /\ hist = <<>> /\ act = [op |-> "init"]
-PoolObjs == 1..7
+PoolObjs == 1..8
 
 Step(a) == hist' = Append(hist, a) /\ act' = a
 En(name) == name \in Acts /\ Len(hist) < Depth
@@ -248,7 +248,7 @@ IOpOutcome(op, o, rhs) ==
   ELSE IF Strict(op) /\ ~Compatible(u, v) THEN "raise"
   ELSE IF ~RhsScalar(rhs) /\ (heap[o].scalar \/ (NRows(rhs) # NRows(o) /\ NRows(rhs) # 1)) THEN "raise"   \* numpy: the right operand must broadcast to the shape of x
   ELSE IF op = "div" /\ \E c \in 1..NComp(o), i \in 1..NRows(o) : RIsZero(RhsVal(rhs, c, i)) THEN "skip"
-  ELSE IF heap[o].dt # "f8" /\ (op = "div" \/ (rhs # 0 /\ heap[rhs].dt = "f8") \/ (Compatible(u, v) /\ u # v)) THEN "skip"   \* not representable in x's dtype
+  ELSE IF heap[o].dt = "i8" /\ (op = "div" \/ (rhs # 0 /\ heap[rhs].dt # "i8") \/ (Compatible(u, v) /\ u # v)) THEN "skip"   \* not representable in x's integer dtype (a float32 target accepts every float result)
   ELSE "ok"
 \* converted right-hand value: strict ops convert, mul/div convert when compatible
 ConvFactor(op, o, rhs) == IF Compatible(heap[o].unit, RhsUnit(rhs)) THEN Ratio(RhsUnit(rhs), heap[o].unit) ELSE ROne
